@@ -578,7 +578,7 @@ class CallMixin:
     def m_dict_update(self, recv, node, st, recv_node):
         (o,) = [self.eval(a, st) for a in node.args]
         if o.ty != recv.ty:
-            raise Unsupported("dict.update with %s" % o.ty, node)
+            o = self.coerce(o, recv.ty, node, "argument of dict.update")
         k = z3.Const(fresh_name("k"), sort_of(recv.ty.k))
         dom = z3.Lambda([k], z3.Or(z3.Select(d_dom(o.t), k), z3.Select(d_dom(recv.t), k)))
         val = z3.Lambda([k], z3.If(z3.Select(d_dom(o.t), k), z3.Select(d_val(o.t), k), z3.Select(d_val(recv.t), k)))
@@ -586,9 +586,14 @@ class CallMixin:
 
     # ------------------------------------------------------- comprehensions
     def e_ListComp(self, node, st):
+        if len(node.generators) == 2 and not any(g.is_async or g.ifs for g in node.generators):
+            return self.flatten_comp(node, st)
         if len(node.generators) != 1 or node.generators[0].is_async:
             raise Unsupported("nested comprehension", node)
         g = node.generators[0]
+        is_dict_iter = isinstance(g.iter, ast.Call) and isinstance(g.iter.func, ast.Attribute) and g.iter.func.attr in ("items", "keys", "values") and not g.iter.args
+        if is_dict_iter and not g.ifs:
+            return self.dict_comp_list(node, g, st)
         src = self.eval(g.iter, st)
         if isinstance(src.ty, TOpt):
             src = self.coerce(src, src.ty.elem, node)
@@ -658,6 +663,82 @@ class CallMixin:
                                 patterns=[l_at(src.t, a)]))
         self.last_filter = dict(R=R, s=s, inv=inv, src=src, cond=cond, j=j)
         return Val(ty, R)
+
+    def dict_comp_list(self, node, g, st):
+        """[f(k, v) for k, v in d.items()] (also keys()/values()): one element per key, in the dict's iteration order
+        (a fresh duplicate-free enumeration of the key set; recorded in st.ghost['dict_iters'] for the sidecar)."""
+        n, ks, elem, extra = self.iter_spec(g.iter, st, node)
+        if "dict" not in extra:
+            raise Unsupported("comprehension over %s" % ast.dump(g.iter)[:40], node)
+        j = z3.Int(fresh_name("cj"))
+        st2 = st.fork()
+        st2.env = dict(st.env)
+        self.bind_target(g.target, elem(j), st2, node)
+        self.bound.append(j)
+        self.guards.append(z3.And(0 <= j, j < n))
+        try:
+            e = self.eval(node.elt, st2)
+        finally:
+            self.guards.pop()
+            self.bound.pop()
+        st.pc.extend(st2.pc[len(st.pc):])
+        ty = TList(e.ty)
+        R = z3.Const(fresh_name("mapped"), sort_of(ty))
+        a = z3.Int(fresh_name("a"))
+        self.fact(st, l_len(R) == n)
+        self.fact(st, forall([a], z3.Implies(z3.And(0 <= a, a < n), l_at(R, a) == z3.substitute(e.t, (j, a))), patterns=[l_at(R, a), l_at(ks.t, a)]))
+        st.ghost = dict(st.ghost)
+        st.ghost["dict_iters"] = list(st.ghost.get("dict_iters", [])) + [dict(keys=ks, idx=extra["idx"], dict=extra["dict"], out=Val(ty, R))]
+        return Val(ty, R)
+
+    def flatten_comp(self, node, st):
+        """(i for p in pairs for i in p) where every p is a tuple of fixed arity m over one type: the concatenation p0 ++ p1 ++ ..."""
+        g1, g2 = node.generators
+        if not (isinstance(g1.target, ast.Name) and isinstance(g2.iter, ast.Name) and g2.iter.id == g1.target.id
+                and isinstance(g2.target, ast.Name) and isinstance(node.elt, ast.Name) and node.elt.id == g2.target.id):
+            raise Unsupported("nested comprehension (only the flattening form is supported)", node)
+        src = self.eval(g1.iter, st)
+        if not (isinstance(src.ty, TList) and isinstance(src.ty.elem, TTuple) and len(set(e.key for e in src.ty.elem.elems)) == 1):
+            raise Unsupported("flattening over %s" % src.ty, node)
+        m = len(src.ty.elem.elems)
+        ety = src.ty.elem.elems[0]
+        ty = TList(ety)
+        R = z3.Const(fresh_name("flat"), sort_of(ty))
+        a = z3.Int(fresh_name("a"))
+        n = l_len(src.t)
+        self.fact(st, l_len(R) == m * n)
+        for c in range(m):
+            self.fact(st, forall([a], z3.Implies(z3.And(0 <= a, a < n), l_at(R, m * a + c) == t_get(l_at(src.t, a), c)), patterns=[l_at(src.t, a)]))
+        return Val(ty, R)
+
+    def b_str(self, node, st):
+        (x,) = [self.eval(a, st) for a in node.args]
+        if isinstance(x.ty, TOpt):
+            x = self.coerce(x, x.ty.elem, node, "argument of str()")
+        if x.ty == TString:
+            return x
+        h = self.conv_handlers.get(("str", x.ty.key))
+        if h:
+            return h(self, x, node, st)
+        raise Unsupported("str() of %s" % x.ty, node)
+
+    def b_float(self, node, st):
+        (x,) = [self.eval(a, st) for a in node.args]
+        if isinstance(x.ty, TOpt):
+            x = self.coerce(x, x.ty.elem, node, "argument of float()")
+        h = self.conv_handlers.get(("float", x.ty.key))
+        if h:
+            return h(self, x, node, st)
+        raise Unsupported("float() of %s" % x.ty, node)
+
+    def b_int(self, node, st):
+        (x,) = [self.eval(a, st) for a in node.args]
+        if isinstance(x.ty, TOpt):
+            x = self.coerce(x, x.ty.elem, node, "argument of int()")
+        h = self.conv_handlers.get(("int", x.ty.key))
+        if h:
+            return h(self, x, node, st)
+        raise Unsupported("int() of %s" % x.ty, node)
 
     def e_GeneratorExp(self, node, st):
         # A-gen: a generator argument is consumed without observable interleaving
